@@ -87,6 +87,10 @@ func main() {
 		}
 		return
 	}
+	if *prop == "all" {
+		// every property against one loaded universe (used for refactoring / seed sweeps on scratch copies)
+		os.Exit(runAll(*repo, *verif, *tier))
+	}
 	f, ok := props[*prop]
 	if !ok {
 		fmt.Fprintf(os.Stderr, "unknown property %q\n", *prop)
@@ -123,4 +127,44 @@ func main() {
 		return c.R.finish(c.Verif, seed())
 	}()
 	os.Exit(code)
+}
+
+func runAll(repo, verif, tier string) int {
+	var ids []string
+	for id := range props {
+		ids = append(ids, id)
+	}
+	sort.Strings(ids)
+	worst := 0
+	var shared *Ctx
+	for _, id := range ids {
+		c := &Ctx{Repo: repo, Verif: verif, Tier: tier, R: newReport(id, tier)}
+		if shared != nil {
+			c.core, c.server = shared.core, shared.server
+		}
+		code := func() (code int) {
+			defer func() {
+				if e := recover(); e != nil {
+					fmt.Printf("ERROR: analyser panic: %v\n%s\n", e, debug.Stack())
+					c.R.viol(id+".infra", "analyser-panic", "", fmt.Sprint(e))
+					code = c.R.finish(c.Verif, seed())
+				}
+			}()
+			props[id](c)
+			return c.R.finish(c.Verif, seed())
+		}()
+		if shared == nil {
+			shared = &Ctx{}
+		}
+		if c.core != nil {
+			shared.core = c.core
+		}
+		if c.server != nil {
+			shared.server = c.server
+		}
+		if code > worst {
+			worst = code
+		}
+	}
+	return worst
 }
